@@ -430,8 +430,16 @@ static void cmd_new(int nt, char **t)
 static void cmd_ud(int nt, char **t) { int h = hidx(t[1]); (void)nt; json_object_set_userdata(H[h], (void *)(intptr_t)L(t[2]), del_cb); ob_puts(&out, "= ok"); emit_dlog(); }
 static int ser_fn(struct json_object *o, struct printbuf *pb, int level, int flags) { (void)o; (void)level; (void)flags; return printbuf_memappend(pb, "\"custom\"", 8); }
 static int ser_fail_fn(struct json_object *o, struct printbuf *pb, int level, int flags) { (void)o; (void)level; (void)flags; printbuf_memappend(pb, "[partial", 8); return -1; }
-/* SS <h> <uid> <custom 0|1|2>   set_serializer (2: a serializer that writes something and then reports failure) */
-static void cmd_ss(int nt, char **t) { int h = hidx(t[1]); (void)nt; json_object_set_serializer(H[h], L(t[3]) == 2 ? ser_fail_fn : L(t[3]) ? ser_fn : NULL, (void *)(intptr_t)L(t[2]), L(t[2]) ? del_cb : NULL); ob_puts(&out, "= ok"); emit_dlog(); }
+/* a serializer that itself calls back into the library: it serializes ANOTHER tree with the same flags and emits that (serializers of application types do this) */
+static int ser_nested_fn(struct json_object *o, struct printbuf *pb, int level, int flags)
+{
+	static struct json_object *helper; const char *s; (void)o; (void)level;
+	if (!helper) helper = json_tokener_parse("{\"n\":[1,2.5,\"x\"]}");
+	s = json_object_to_json_string_ext(helper, flags & ~JSON_C_TO_STRING_PRETTY);
+	return s ? printbuf_memappend(pb, s, (int)strlen(s)) : -1;
+}
+/* SS <h> <uid> <custom 0|1|2|3>   set_serializer (2: a serializer that writes something and then reports failure; 3: one that re-enters the library) */
+static void cmd_ss(int nt, char **t) { int h = hidx(t[1]); (void)nt; json_object_set_serializer(H[h], L(t[3]) == 3 ? ser_nested_fn : L(t[3]) == 2 ? ser_fail_fn : L(t[3]) ? ser_fn : NULL, (void *)(intptr_t)L(t[2]), L(t[2]) ? del_cb : NULL); ob_puts(&out, "= ok"); emit_dlog(); }
 
 /* GETN <h> <n>: n times json_object_get; PUTN <h> <n>: n times json_object_put -> = <number of puts that returned 1> first=<index of the first such put | -1> del=.. (many-owner histories) */
 static void cmd_getn(int nt, char **t) { int h = hidx(t[1]); unsigned long n = UL(t[2]), i; (void)nt; for (i = 0; i < n; i++) { json_object_get(H[h]); if (!(i & 0xFFFFFF)) vf_progress++; } ob_puts(&out, "= ok"); }
